@@ -907,6 +907,7 @@ theorem step_invL {s s' : State} {dead : List Inst} {x : Inst} {a : Act} (inv : 
     | [], hsc, _ => simp at hsc
     | _ :: _ :: _, hsc, _ => simp at hsc
   | release i => simp [inScopeL] at hsc
+  | lateWrite i t => simp [inScopeL] at hsc
   | redeployFailed i =>
     simp only [step] at hstep
     split at hstep
